@@ -4,6 +4,11 @@
  * input:  case <id> <n> <panel_size> <relax> <nworkers> / <etree n ints> / <nevents> / events:
  *           s <w>   worker w calls the scheduler (with its current finished panel or EMPTY)
  *           f <w>   worker w finishes the panel it holds (release columns, STATE = DONE)
+ *         or, instead of <nevents>, a line "auto <seed> <trials>": implementation-side search — random interleavings of the worker
+ *         loop of p?gstrf_thread (loop test / scheduler call / finish-when-descendants-released) chosen here, with the
+ *         property's monitors applied to the REAL scheduler's state: a panel handed out twice or a non-panel handed out,
+ *         tasks_remain != panels not yet handed out, queue indices out of range, a stuck state (fixpoint with unfinished panels),
+ *         panels left when all workers have exited.  Prints the failing event list for replay.
  * output: after init and after every event one line "st <state...> | uk <ukids...> | fb ... | q head tail count | tr | spin | cur/bcol per worker"
  */
 #define _GNU_SOURCE
@@ -19,6 +24,104 @@ static void dump(FILE *out, const char *tag, int_t n, pxgstrf_shared_t *S, int n
     fprintf(out, " | tr %ld | spin", (long)S->tasks_remain); for (int_t i = 0; i < n; i++) fprintf(out, " %ld", (long)S->spin_locks[i]);
     fprintf(out, " | w"); for (int w = 0; w < nw; w++) fprintf(out, " %ld:%ld:%ld", (long)cur[w], (long)hold[w], (long)bcol[w]);
     fputc('\n', out);
+}
+
+static unsigned long long rs;
+static unsigned rnd(void) { rs = rs * 6364136223846793005ULL + 1442695040888963407ULL; return (unsigned)(rs >> 33); }
+
+/* the wait of a worker on its pipelined descendants (p?gstrf_thread: spins on spin_locks of the busy columns below the panel) */
+static int released(int_t n, int_t *etree, pxgstrf_shared_t *S, int_t p, int_t b) {
+    if (S->pan_status[p].type == RELAXED_SNODE) return 1;
+    int_t k = b, fuel = n + 1;
+    while (k < p && fuel-- > 0) { if (S->spin_locks[k]) return 0; k = etree[k]; }
+    return 1;
+}
+
+static unsigned long shared_sig(int_t n, pxgstrf_shared_t *S) {
+    unsigned long h = S->tasks_remain * 31 + S->taskq.head * 7 + S->taskq.tail * 3 + S->taskq.count;
+    for (int_t i = 0; i <= n; i++) h = h * 1000003 + S->pan_status[i].state * 5 + S->pan_status[i].ukids;
+    return h;
+}
+
+/* one random walk; returns 0 ok, else writes the failure kind; evlog receives the events */
+static const char *walk(long n, superlumt_options_t *opt, pxgstrf_relax_t *rl, long nw, char *evlog, size_t evcap, long *nevents, long *handed_total) {
+    Gstat_t G; StatAlloc(n, nw, opt->panel_size, opt->relax, &G); StatInit(n, nw, &G);
+    pxgstrf_shared_t S; memset(&S, 0, sizeof S); S.Gstat = &G;
+    GlobalLU_t Glu; memset(&Glu, 0, sizeof Glu); S.Glu = &Glu; Glu.map_in_sup = intMalloc(n + 1);
+    ParallelInit(n, rl, opt, &S);
+    int_t *cur = malloc(sizeof(int_t) * nw), *hold = malloc(sizeof(int_t) * nw), *bcol = malloc(sizeof(int_t) * nw);
+    int *phase = calloc(nw, sizeof(int));   /* 0 head, 1 calling, 2 working, 3 exited */
+    int *handed = calloc(n + 1, sizeof(int));
+    long npanels = 0; for (long i = 0; i < n; i++) if (S.pan_status[i].size > 0) npanels++;
+    for (long w = 0; w < nw; w++) { cur[w] = EMPTY; hold[w] = EMPTY; bcol[w] = EMPTY; }
+    const char *fail = NULL; size_t el = 0; evlog[0] = 0; long ev = 0, nh = 0;
+    long cap = 400 * n * (nw > 4 ? 4 : nw) + 4000, quiet = 0;
+    while (!fail) {
+        /* enabled events */
+        int en[3 * 64], ne = 0, allexit = 1;
+        for (long w = 0; w < nw && w < 64; w++) {
+            if (phase[w] != 3) allexit = 0;
+            if (phase[w] == 0 || phase[w] == 1) en[ne++] = w;
+            else if (phase[w] == 2 && released(n, opt->etree, &S, hold[w], bcol[w])) { en[ne++] = w; en[ne++] = w; }  /* finishing is twice as likely as a poll */
+        }
+        if (allexit) {
+            for (long i = 0; i < n; i++) if (S.pan_status[i].size > 0 && (handed[i] != 1 || S.pan_status[i].state != DONE)) fail = "all-workers-exited-with-panels-left";
+            break;
+        }
+        if (ne == 0) { fail = "stuck:every-worker-waits"; break; }
+        if (ev >= cap) { fail = NULL; break; }   /* inconclusive */
+        long w = en[rnd() % ne]; unsigned long before = shared_sig(n, &S); int ph0 = phase[w];
+        if (phase[w] == 0) {
+            phase[w] = S.tasks_remain > 0 ? 1 : 3;
+            if (el + 16 < evcap) el += sprintf(evlog + el, "l %ld ", w);
+        } else if (phase[w] == 1) {
+            pxgstrf_scheduler(w, n, opt->etree, &cur[w], &bcol[w], &S);
+            if (el + 16 < evcap) el += sprintf(evlog + el, "s %ld ", w);
+            if (cur[w] != EMPTY) {
+                int_t j = cur[w];
+                if (j < 0 || j >= n || S.pan_status[j].size <= 0) { fail = "scheduler-returned-a-non-panel"; break; }
+                if (++handed[j] > 1) { fail = "panel-handed-out-twice"; break; }
+                nh++; hold[w] = j; phase[w] = 2;
+            } else phase[w] = 0;
+            long left = 0; for (long i = 0; i < n; i++) if (S.pan_status[i].size > 0 && !handed[i]) left++;
+            if (S.tasks_remain != left) { fail = "tasks_remain!=panels-not-handed-out"; break; }
+            if (S.taskq.head < 0 || S.taskq.head > S.taskq.tail || S.taskq.tail > n || S.taskq.count != S.taskq.tail - S.taskq.head) { fail = "queue-indices"; break; }
+        } else {
+            int_t j = hold[w], sz = S.pan_status[j].size;
+            for (int_t jj = j; jj < j + sz; jj++) S.spin_locks[jj] = 0;
+            S.pan_status[j].state = DONE; hold[w] = EMPTY; phase[w] = 0;
+            if (el + 16 < evcap) el += sprintf(evlog + el, "f %ld ", w);
+        }
+        ev++;
+        /* fixpoint detection: a full round in which no worker changes the shared state and none can finish */
+        if (shared_sig(n, &S) == before && !(ph0 == 2)) quiet++; else quiet = 0;
+        if (quiet > 6 * nw + 20) {
+            int canfinish = 0, waiting = 0;
+            for (long x = 0; x < nw; x++) if (phase[x] == 2) { waiting++; if (released(n, opt->etree, &S, hold[x], bcol[x])) canfinish = 1; }
+            if (!canfinish) {
+                /* deterministic round: every non-working, non-exited worker polls once */
+                unsigned long sig = shared_sig(n, &S); int got = 0, live = 0;
+                for (long x = 0; x < nw && !got; x++) {
+                    if (phase[x] == 3 || phase[x] == 2) continue;
+                    live++;
+                    if (S.tasks_remain <= 0) { phase[x] = 3; continue; }
+                    pxgstrf_scheduler(x, n, opt->etree, &cur[x], &bcol[x], &S);
+                    if (el + 16 < evcap) el += sprintf(evlog + el, "l %ld s %ld ", x, x);
+                    if (cur[x] != EMPTY) { got = 1; int_t j = cur[x]; if (j < 0 || j >= n || S.pan_status[j].size <= 0) { fail = "scheduler-returned-a-non-panel"; break; }
+                        if (++handed[j] > 1) { fail = "panel-handed-out-twice"; break; } nh++; hold[x] = j; phase[x] = 2; }
+                    else phase[x] = 0;
+                }
+                if (!fail && !got && sig == shared_sig(n, &S) && S.tasks_remain > 0 && (waiting > 0 || live > 0)) {
+                    int any_unfinished = 0; for (long i = 0; i < n; i++) if (S.pan_status[i].size > 0 && S.pan_status[i].state != DONE) any_unfinished = 1;
+                    if (any_unfinished && !canfinish) { fail = "stuck:fixpoint-with-unfinished-panels"; break; }
+                }
+            }
+            quiet = 0;
+        }
+    }
+    *nevents = ev; *handed_total = nh;
+    ParallelFinalize(&S); StatFree(&G); free(cur); free(hold); free(bcol); free(phase); free(handed);
+    return fail;
 }
 
 int main(int argc, char **argv) {
@@ -47,7 +150,21 @@ int main(int argc, char **argv) {
         int_t *cur = malloc(sizeof(int_t) * nw), *hold = malloc(sizeof(int_t) * nw), *bcol = malloc(sizeof(int_t) * nw);
         for (long w = 0; w < nw; w++) { cur[w] = EMPTY; hold[w] = EMPTY; bcol[w] = EMPTY; }
         dump(out, "ev0", n, &S, nw, cur, hold, bcol);
-        long nev; fscanf(in, "%ld", &nev);
+        char nt[32]; long nev = 0; fscanf(in, "%31s", nt);
+        if (!strcmp(nt, "auto")) {
+            long seed, trials; fscanf(in, "%ld %ld", &seed, &trials);
+            static char evlog[1 << 16]; long tev = 0, th = 0, inconcl = 0; const char *f = NULL; long ft = -1;
+            for (long t = 0; t < trials && !f; t++) {
+                rs = (unsigned long long)seed * 1000003ULL + t; long e1, h1;
+                f = walk(n, &opt, rl, nw, evlog, sizeof evlog, &e1, &h1); tev += e1; th += h1; if (f) ft = t;
+            }
+            fprintf(out, "auto trials=%ld events=%ld handed=%ld result=%s", trials, tev, th, f ? f : "ok");
+            if (f) fprintf(out, " trial=%ld history= %s", ft, evlog);
+            fputc('\n', out);
+            ParallelFinalize(&S); StatFree(&G); SUPERLU_FREE(rl); SUPERLU_FREE(opt.etree); free(cur); free(hold); free(bcol);
+            continue;
+        }
+        nev = atol(nt);
         for (long e = 0; e < nev; e++) {
             char k[8]; long w; fscanf(in, "%7s %ld", k, &w);
             if (k[0] == 's') {
